@@ -377,6 +377,37 @@ def run_case(case, workdir):
                              "the second pickle does not hold the rewritten plotfile (time %r)" % up2.time)
         except Exception as e:
             rec.fail("marinate_unpickle", {}, exc_text(e))
+    # ---- history: the second plotfile is read, rewritten IN PLACE (same names, other time and data), and read again
+    def minute(pth):
+        with Captured(["minuterie", pth]) as c_:
+            st_, val_ = call(minuterie.main)
+        m_ = re.search(r"Plotfile time = (\S+)", c_.text)
+        return st_, (float(m_.group(1)) if m_ else None)
+    minute(path2)
+    reset()
+    run_menu(path2, True, False)
+    d4 = dict(desc2, seed=desc2.get("seed", 0) + 4, time=-3.25)
+    tmp2 = os.path.join(workdir, "rewrite2")
+    from ..refmodel import write_plotfile as _wp
+    _wp(d4, tmp2)
+    for root_, dirs_, files_ in os.walk(tmp2):
+        for fn_ in files_:
+            src = os.path.join(root_, fn_)
+            with open(src, "rb") as fi, open(os.path.join(path2, os.path.relpath(src, tmp2)), "wb") as fo:
+                fo.write(fi.read())
+    st5, t5 = minute(path2)
+    rec.exe([dh, "minuterie_after_rewrite"], trans=2)
+    if st5 == "exc" or t5 is None or not same_value(t5, -3.25):
+        rec.fail("minuterie_stale", {"history": "header rewritten in place between two calls"}, "second call printed %r, the header says -3.25" % (t5,))
+    reset()
+    st6, val6, text6 = run_menu(path2, True, False)
+    rec.exe([dh, "menu_after_rewrite"], trans=2)
+    if st6 == "exc":
+        rec.fail("menu_raised", {"history": "plotfile rewritten in place between two calls"}, exc_text(val6))
+    else:
+        check_minmax(rec, {"tool": "menu", "min_max": True, "finest_lv": False, "history": "plotfile rewritten in place between two calls"},
+                     d4["fields"], text6, ParsedPlot(path2), finest=False)
+    reset()
     rec.sample({"desc": desc, "second_plotfile_fields": desc2["fields"]})
     return rec.result()
 
